@@ -205,7 +205,23 @@ def check_resume(ctx):
             key = f'{f.name}:resume'
             loc = f'{f.mod.relpath}:{s.lineno}'
             if requery is None or evs.index(next(e for e in evs if e[1] is requery[0])) < max(i for i, e in enumerate(evs) if e[1] is s):
-                ctx.ob('R3.4b', key, loc, 'the loop re-queries after the grouping', False, 'no lookup after group_tokens on this path')
+                # `while True:` form: the lookup is the first thing the next iteration does -- take the first lookup of the body,
+                # its index argument evaluated with the values the variables have at the end of this path
+                first = next(((s2, s2.value) for (k, s2, v, nm) in evs if k == 'unpack' and isinstance(s2.value, ast.Call)
+                              and isinstance(s2.value.func, ast.Attribute) and s2.value.func.attr in ('token_next_by', 'token_next')
+                              and s2 in w.body), None)
+                if first is None or p.exit not in ('fall', 'continue'):
+                    ctx.ob('R3.4b', key, loc, 'the loop re-queries after the grouping', False, 'no lookup after group_tokens on this path')
+                    continue
+                from ..astutil import subst
+                raw = first[1]
+                ridx = next((k.value for k in raw.keywords if k.arg == 'idx'), raw.args[0] if raw.func.attr == 'token_next' and raw.args else None)
+                idx = subst(ridx, env) if ridx is not None else None
+                ok = idx is not None and lin_diff(idx, start) == {}
+                ctx.ob('R3.4b', key, f'{f.mod.relpath}:{first[0].lineno}',
+                       'after group_tokens(cls, start, end) the scan resumes from idx = start (the index of the new group)', ok,
+                       f'the next iteration looks up from `{src(idx) if idx is not None else None}` but the group was built at `{src(start)}`: '
+                       'siblings after the group are skipped or the index runs past the shrunken list')
                 continue
             rq = requery[1]
             idx = next((k.value for k in rq.keywords if k.arg == 'idx'), rq.args[0] if rq.func.attr == 'token_next' and rq.args else None)
